@@ -295,8 +295,9 @@ def check_ranges_semantic(ctx):
         ctx.ok('ALG-20', 'n_data and n_fits columns', loc(fi), 'info.source.n_data and info.n_fits')
     else:
         others = [alg.show(p_, 60) for p_ in known if alg.leaf_syms(p_)[0] <= {'valid'} or (not alg.leaf_syms(p_)[0] and 'len' in alg.leaf_syms(p_)[1])]
-        if None in seq and not others:
-            ctx.undecided('ALG-20', 'n_data and n_fits columns', loc(fi), 'values written not captured'); decided = False
+        if None in seq:
+            # something written was not modelled: the count may be it
+            ctx.undecided('ALG-20', 'n_data and n_fits columns', loc(fi), 'a value written is not modelled; count-like values recognised: %s' % others[:4]); decided = False
         else:
             ctx.violation('ALG-20', 'n_data and n_fits columns', loc(fi), 'n_data / n_fits are not taken from info.source.n_data / info.n_fits (count-like values written: %s)' % others[:4], 'counts')
     return decided
